@@ -24,3 +24,8 @@ claim("C12", "per-path symbolic analysis of every pack/unpack function (cursor/g
       "For every implemented function of pack.c, on every path and for every buffer size at once: single advance by the item size before the test (sticky, always counted), guard exactly `advanced cursor <= endp`, all accesses inside the item on fitting paths and none otherwise, zero / zero-fill / NULL-skip failure results, byte order decided lane by lane. All obligations must be discharged; each is a statement about all inputs of that function.",
       "Scope limit is the property's own: requested bytes below 2^31. Trusted: clang 14 front end, ir2json, path enumerator (no aliasing between the rf_pack_t and the buffers), ByteLane transfer functions.",
       "DESIGN.md section 2 C12")
+claim("C13", "wire-grammar extraction and sibling agreement of encoder vs decoder (per guarded path) + constant/polynomial propagation of the initialiser's abstract post-state through the encoder grammar and validate",
+      "other",
+      "Decides for every (format, rate, channels, frames) at once: encoder and decoder walk the same fields/widths/guards; rf_wavheader_init writes every field; the stored RIFF size equals the bytes the encoder emits for that format; block_align/byte_rate/bits_per_sample/audio_format and the set_num_frames updates are the stated polynomials; validate accepts the initialised header; every field that can be non-zero is transferred (round-trip identity).",
+      "Byte-exact re-encoding of every accepted byte string is decided only up to walk agreement (same fields, widths, guards). Relies on C12 for the behaviour of rf_(un)pack_*. Trusted: clang 14 front end, ir2json, path enumerator with the stated call-effect table for pack functions.",
+      "DESIGN.md section 2 C13")
